@@ -37,6 +37,14 @@ class _TlsContract(CMContract):
     self._get_store = get_store
     tls.install(policy, list(self.stores), get_store)
 
+  def between_creation_and_entry(self, interp, env):
+    # whatever the manager looked at when it was created may have changed by
+    # the time it is entered
+    g = interp.path.ghost
+    for key in [k for k in g if isinstance(k, tuple) and k[0] == 'store']:
+      g[key].havoc(interp)
+    return True
+
   def store(self, interp, obj=None):
     return self._get_store(interp, obj if obj is not None else self.stores[0])
 
